@@ -332,10 +332,26 @@ def function_names():
     for mod in (builtins, statistics, math, itertools, functools, operator, re, _os, _sys, collections, _dt, _json, ast, string, types, copy):
         names |= {n for n in dir(mod) if not n.startswith('__') or n in ('__import__', '__build_class__')}
     names |= {n.lower() for n in names}
+    # every name the evaluator under test can dispatch on: its own function tables and every identifier-shaped string constant of the module
+    try:
+        import inspect
+        from tally import expr_parser as _ep
+        for cls in (_ep.TransactionContext, _ep.ExpressionContext):
+            names |= {n[4:] for n in dir(cls) if n.startswith('_fn_')}
+            names |= set(getattr(cls, '_FUNCTION_NAMES', ()))
+        for node in ast.walk(ast.parse(inspect.getsource(_ep))):
+            if isinstance(node, ast.Constant) and isinstance(node.value, str) and node.value.isidentifier():
+                names.add(node.value)
+    except (ImportError, OSError, SyntaxError, AttributeError):
+        pass
     return sorted(n for n in names if n.isidentifier())
 
 
-FUNC_SHAPES = ['{f}()', '{f}(payments)', '{f}("a b", "c d")', '{f}(1, 2)', '{f}(description)', '{f}(orders)', '{f}(amount)', '{f}("os")', 'trim({f})', '{f}(payments, 1)']
+FUNC_SHAPES = ['{f}()', '{f}(payments)', '{f}("a b", "c d")', '{f}(1, 2)', '{f}(description)', '{f}(orders)', '{f}(amount)', '{f}("os")', 'trim({f})', '{f}(payments, 1)',
+               # strings that are programs of some mini-language (str.format fields, %-templates, regex replacement templates, strftime), in every argument position
+               '{f}("{0.__class__} {0.upper}", description)', '{f}("{0[0].__class__.__mro__}", [r for r in orders])', '{f}(description, "{0.__class__.__init__.__globals__}")',
+               '{f}("%(item)r %(date)r", orders[0])', '{f}("{.__class__}")', '{f}(description, "(.)", "\\g<0>{0.__class__}")', '{f}("{0.__class__}", "{0.__class__}", description)',
+               '{f}("{txn.__class__} {field.__class__}", txn)', '{f}(date, "{0.__class__}%c")']
 
 
 def function_matrix_strings(part, nparts):
